@@ -1,6 +1,22 @@
 """Per-property metadata used by the runner (levels, explanations)."""
 
 PROPS = {
+    "C18": {
+        "level": "other",
+        "explanation": "one datum / one hash / one path decided by provenance: the write method feeds its data "
+                       "parameter once each to counter, hasher and file on every Ok path; the hash registered and the "
+                       "hash naming the file are the same finalize() value; the CAS path is a pure function of root "
+                       "and hash; constant slice ranges tile the hex string and the parser inverts them",
+        "not_decided": "BLAKE3 and hex themselves; the for-all-hashes bijection beyond tiling",
+    },
+    "C17": {
+        "level": "other",
+        "explanation": "bounds of the range read decided structurally: provenance of every allocation size on the read "
+                       "path (end-start with end clamped to the stored size at every call site), every subtraction "
+                       "dominated by a comparison of the same values, reject polarity, coupling of the three "
+                       "accumulators to the bytes-read value",
+        "not_decided": "byte-exact slice equality over the (L, start, end) cube",
+    },
     "C20": {
         "level": "other",
         "explanation": "append-only open modes, version-counter confinement, provenance of version/checksum/target "
